@@ -641,7 +641,7 @@ impl Sim {
         let cs = w.conns.get_mut(&c).ok_or("no such conn")?;
         match what {
             "ConnReady" => {
-                if !cs.busy || held_by {
+                if !cs.busy || held_by || !cs.open || cs.upgraded {
                     return Err("ConnReady not enabled".into());
                 }
                 cs.busy = false
